@@ -3,7 +3,7 @@
 //! drives them. Every choice the explorer makes is drawn from the case PRNG
 //! and appended to `choices` (the schedule).
 use crate::ast::*;
-use crate::build::{self, local, threads, StashL, StashT};
+use crate::build::{self, local, localpool, threads, StashL, StashT};
 use crate::exec::Arena;
 use crate::log::*;
 use crate::value::*;
@@ -15,6 +15,8 @@ use std::time::Instant;
 pub enum Flavor {
   Local,
   Threads,
+  /// local operators on the real `futures::executor::LocalPool` (the library's own LocalSpawner scheduler impl)
+  LocalPool,
 }
 
 #[derive(Clone, Copy, Debug, PartialEq, Eq, Hash)]
@@ -37,6 +39,9 @@ pub struct World {
   pub arena: Arena,
   pub l: local::Ctx,
   pub t: threads::Ctx,
+  pub lp: localpool::Ctx,
+  pub pool: futures::executor::LocalPool,
+  pub pool_maybe_ready: bool,
   pub subs: Vec<Sub>,
   pub choices: Vec<u32>,
   pub max_ready: usize,
@@ -83,12 +88,17 @@ impl World {
       log: log.clone(),
       base,
     };
+    let pool = futures::executor::LocalPool::new();
+    let lp = localpool::Ctx { hot: l.hot.clone(), stash: l.stash.clone(), sched: pool.spawner(), log: log.clone(), base };
     World {
       flavor,
       log,
       arena,
       l,
       t,
+      lp,
+      pool,
+      pool_maybe_ready: true,
       subs: vec![],
       choices: vec![],
       max_ready: 0,
@@ -110,14 +120,20 @@ impl World {
         let o = threads::build(chain, &self.t);
         Sub::T(BoxSubscriptionThreads::new(o.actual_subscribe(p)))
       }
+      Flavor::LocalPool => {
+        let o = localpool::build(chain, &self.lp);
+        self.pool_maybe_ready = true;
+        Sub::L(BoxSubscription::new(o.actual_subscribe(p)))
+      }
     };
     self.subs.push(s);
     self.subs.len() - 1
   }
 
   pub fn inject(&mut self, k: usize, n: N) {
+    self.pool_maybe_ready = true;
     match self.flavor {
-      Flavor::Local => {
+      Flavor::Local | Flavor::LocalPool => {
         let mut s = self.l.hot[k].clone();
         match n {
           N::Next(v) => s.next(v),
@@ -137,8 +153,9 @@ impl World {
   }
 
   pub fn inject_create(&mut self, k: usize, n: N) -> bool {
+    self.pool_maybe_ready = true;
     match self.flavor {
-      Flavor::Local => {
+      Flavor::Local | Flavor::LocalPool => {
         let s = self.l.stash.borrow().get(k).and_then(|s| s.clone());
         let Some(mut s) = s else { return false };
         match n {
@@ -161,6 +178,7 @@ impl World {
   }
 
   pub fn act(&mut self, a: &Act) {
+    self.pool_maybe_ready = true;
     match a {
       Act::In(k, n) => self.inject(*k, n.clone()),
       Act::Cr(k, n) => {
@@ -211,6 +229,12 @@ impl World {
 
   /// run ready tasks until none is ready (policy decides which goes next)
   pub fn quiesce(&mut self, policy: Policy, rng: &mut Rng) -> usize {
+    if self.flavor == Flavor::LocalPool {
+      // the real executor: FIFO by construction
+      self.pool.run_until_stalled();
+      self.pool_maybe_ready = false;
+      return 0;
+    }
     let mut n = 0;
     loop {
       let r = self.arena.ready();
@@ -236,6 +260,7 @@ impl World {
     // a FIFO scheduler model also wakes equal deadlines in creation order;
     // the any-order model may wake them in any order
     let i = if self.timer_ties_fifo { 0 } else { self.choose(rng, same.len()) };
+    self.pool_maybe_ready = true;
     vtime::fire(same[i])
   }
 
@@ -306,7 +331,11 @@ impl World {
     loop {
       on_step(self, self.steps, rng);
       self.steps += 1;
-      let ready = self.arena.ready();
+      let ready: Vec<usize> = if self.flavor == Flavor::LocalPool {
+        if self.pool_maybe_ready { vec![0] } else { vec![] }
+      } else {
+        self.arena.ready()
+      };
       self.max_ready = self.max_ready.max(ready.len());
       let ev = acts.get(i).is_some();
       let tm = vtime::next_due().filter(|d| *d <= horizon).is_some();
@@ -327,11 +356,18 @@ impl World {
       let c = opts[self.choose(rng, opts.len())];
       match c {
         0 => {
-          let k = match policy {
-            Policy::Fifo => 0,
-            Policy::Any => self.choose(rng, ready.len()),
-          };
-          self.arena.run(ready[k]);
+          if self.flavor == Flavor::LocalPool {
+            // one task of the real pool, in the pool's own order
+            if !self.pool.try_run_one() {
+              self.pool_maybe_ready = false;
+            }
+          } else {
+            let k = match policy {
+              Policy::Fifo => 0,
+              Policy::Any => self.choose(rng, ready.len()),
+            };
+            self.arena.run(ready[k]);
+          }
         }
         1 => {
           // events never travel back in time: if the clock already passed
@@ -377,6 +413,7 @@ impl World {
             target = target.min(a.t);
           }
           vtime::advance_to(target);
+          self.pool_maybe_ready = true;
         }
       }
       if self.steps > 20_000 {
